@@ -490,7 +490,7 @@ PE(n, S, TY(_), CVf(_), C) ==
         [] n.op = "Dropout" ->
              IF Len(n.ins) > 1 THEN Miss(sym)
              ELSE IF Len(n.outs) = 1 THEN Hit(Ident(n.ins[1]), "PE_Dropout", sym, {})
-             ELSE LET f == "t" \o Str(S.fresh) IN
+             ELSE LET f == "z" \o Str(S.fresh) IN
                   Hit(<<N1("Identity", <<n.ins[1]>>, o), N1("Shape", <<n.ins[1]>>, f),
                         Nd("ConstantOfShape", <<f>>, <<n.outs[2]>>, [NoAt EXCEPT !.val = Vec("bool", <<1>>)], <<>>)>>, "PE_Dropout_mask", sym, {})
         [] n.op = "If" ->
@@ -524,7 +524,7 @@ OutRep(G, S, i) ==
             c == IF o \in DOMAIN S.sym /\ S.sym[o].k = "val" THEN S.sym[o].v ELSE ""
             ok == c # "" /\ ProdIdx(G.nodes, c) # 0 /\ c \notin SeqToSet(G.outs)
         IN IF ~ok THEN OutRep(G, S, i + 1)
-           ELSE LET f == "t" \o Str(S.fresh)
+           ELSE LET f == "z" \o Str(S.fresh)
                     nodes2 == RenNodes(RenNodes(G.nodes, o, f, TRUE), c, o, TRUE)
                     ty2 == (o :> TyGet(S.ty, c)) @@ (f :> TyGet(S.ty, o)) @@ S.ty
                 IN OutRep([G EXCEPT !.nodes = nodes2], Log([S EXCEPT !.fresh = @ + 1, !.ty = ty2, !.ghost = RenNodes(RenNodes(@, o, f, TRUE), c, o, TRUE)], "OutputReplaced:" \o o), i + 1)
@@ -552,8 +552,14 @@ VisitNode(G, k, S, C) ==
        \* node-level inference is given const_value of small constant inputs as data - also of overridable defaults
        infUsed == IF inf # <<>> /\ n.op \in {"Reshape", "Expand", "Unsqueeze", "Squeeze"} /\ n.ins[2] \in C.ovr /\ ~IsErr(CVf(n.ins[2]))
                   THEN {"overridable_read_as_const"} ELSE {}
-       S1 == [S EXCEPT !.ty = ty1c, !.used = @ \cup infUsed, !.mod = @ \/ n # n0]
-       TY1(nm) == TyGet(ty1c, nm)
+       \* the Identity evaluator infers backwards: input.shape = _merge_shapes(input.shape, output.shape); input.type = output.type if unknown
+       ty1d == IF n.op = "Identity"
+               THEN LET ti == TyGet(ty1c, n.ins[1]) tout == TyGet(ty1c, n.outs[1])
+                        msh == MergeSh(ti.sh, tout.sh)
+                    IN (n.ins[1] :> [dt |-> IF ti.dt = "" THEN tout.dt ELSE ti.dt, sh |-> IF msh = FAILSH THEN ti.sh ELSE msh]) @@ ty1c
+               ELSE ty1c
+       S1 == [S EXCEPT !.ty = ty1d, !.used = @ \cup infUsed, !.mod = @ \/ n # n0]
+       TY1(nm) == TyGet(ty1d, nm)
        pe == PE(n, S1, TY1, CVf, C)
        foldable == /\ n.op \notin {"Constant", "If", "ConstantOfShape"} /\ Len(n.outs) = 1 /\ Len(n.ins) > 0
                    /\ \A i \in 1..Len(n.ins) : n.ins[i] = "" \/ ((Mutant = "fold_graph_input" \/ n.ins[i] \notin C.gins) /\ ~IsErr(Get(cm @@ C.ovrc, n.ins[i])))
@@ -576,7 +582,7 @@ VisitNode(G, k, S, C) ==
          LET cl == ClearUnused([G1 EXCEPT !.nodes = Splice(G1.nodes, k, <<>>), !.inits = Append(@, IniR(n.outs[1], fval))], n.ins, C, S.ghost)
          IN [G |-> cl.G, next |-> k,
              S |-> Log([S1 EXCEPT !.sym = DropKeys(pe.sym, SeqToSet(n.outs)), !.used = @ \cup cl.used,
-                                  !.ty = (n.outs[1] :> [dt |-> fval.dt, sh |-> fval.shape]) @@ ty1c], "FoldByReference:" \o n.outs[1])]
+                                  !.ty = (n.outs[1] :> [dt |-> fval.dt, sh |-> fval.shape]) @@ ty1d], "FoldByReference:" \o n.outs[1])]
       ELSE IF n.op = "If" THEN
          LET C2 == [C EXCEPT !.cenv = cm]
              r1 == FoldGraph(n.sub[1], S1, C2)
@@ -603,7 +609,7 @@ Rules(G, k, S, cm, C) ==
        o == n.outs[1]
        TY(nm) == TyGet(S.ty, nm)
        Ident(src) == <<N1("Identity", <<src>>, o)>>
-       f == "t" \o Str(S.fresh)
+       f == "z" \o Str(S.fresh)
        OvrU(names) == IF \E i \in 1..Len(names) : names[i] \in C.ovr THEN {"overridable_read_as_const"} ELSE {}
        \* --- _no_op: x*1, 1*x, x+0, 0+x, x-0
        noop == IF n.op = "Mul" /\ Len(n.ins) = 2 /\ ScalarIs(cm, n.ins[2], 1) THEN RHit("mul_by_1", Ident(n.ins[1]), <<>>, 0, OvrU(<<n.ins[2]>>), 0)
